@@ -29,7 +29,8 @@ type e2State struct {
 	// sharing the backing array), e.g. DependencyKeys.MarshalJSON
 	sortsRecv map[*types.Func][]string
 	// sortsParam[fn] = set of parameter indices the function sorts in place
-	changed bool
+	sortsParam map[*types.Func]map[int]bool
+	changed    bool
 	// for reporting: collected once in the final pass
 	final                                        bool
 	nMapRanges, nClassK, nClassM, nClassA, nDiag int
@@ -85,6 +86,10 @@ func runE2(p *Prog, r *Report) {
 		if fn.Obj != nil && fn.Decl.Recv != nil {
 			st.methodImpls[fn.Obj.Name()] = append(st.methodImpls[fn.Obj.Name()], fn.Obj)
 		}
+	}
+	st.sortsParam = map[*types.Func]map[int]bool{}
+	for _, fn := range p.Funcs {
+		st.summariseParamSorts(fn)
 	}
 	for _, fn := range p.Funcs {
 		st.summariseSorts(fn)
@@ -793,6 +798,16 @@ func (st *e2State) summariseSorts(fn *Func) {
 		if !ok {
 			return true
 		}
+		// a helper that sorts one of its parameters in place, handed a receiver field
+		if cf := calleeOf(info, call); cf != nil {
+			for k := range st.sortsParam[cf] {
+				if k < len(call.Args) {
+					if f := recvField(call.Args[k]); f != "" {
+						st.sortsRecv[fn.Obj] = append(st.sortsRecv[fn.Obj], f)
+					}
+				}
+			}
+		}
 		arg, ok := isSortCall(info, call)
 		if !ok {
 			return true
@@ -1164,6 +1179,65 @@ func (st *e2State) judgeStability(fn *Func, src taintSrc) {
 			}
 		default:
 			// a module method that sorts its receiver in place: judged where it sorts
+		}
+		return true
+	})
+}
+
+// summariseParamSorts records the parameters a function sorts in place: a sort call on the
+// parameter itself, or on a local that is defined once as a plain copy of it (same backing
+// array) by a statement dominating the sort.
+func (st *e2State) summariseParamSorts(fn *Func) {
+	if fn.Obj == nil || fn.Body == nil || fn.Lit != nil {
+		return
+	}
+	info := fn.Info()
+	sig, ok := fn.Obj.Type().(*types.Signature)
+	if !ok {
+		return
+	}
+	paramIdx := func(e ast.Expr) int {
+		id, ok := ast.Unparen(e).(*ast.Ident)
+		if !ok {
+			return -1
+		}
+		o := info.ObjectOf(id)
+		for k := 0; k < sig.Params().Len(); k++ {
+			if sig.Params().At(k) == o && len(fn.Assignments(o)) == 0 {
+				return k
+			}
+		}
+		return -1
+	}
+	ast.Inspect(fn.Body, func(n ast.Node) bool {
+		if _, isLit := n.(*ast.FuncLit); isLit {
+			return false
+		}
+		call, ok := n.(*ast.CallExpr)
+		if !ok {
+			return true
+		}
+		arg, ok := isSortCall(info, call)
+		if !ok {
+			return true
+		}
+		k := paramIdx(arg)
+		if k < 0 {
+			if id, ok := ast.Unparen(arg).(*ast.Ident); ok {
+				if o := info.ObjectOf(id); o != nil {
+					if def := fn.SingleDef(o); def != nil {
+						if as := fn.Assignments(o); len(as) == 1 && fn.Dominates(as[0], call) {
+							k = paramIdx(def)
+						}
+					}
+				}
+			}
+		}
+		if k >= 0 {
+			if st.sortsParam[fn.Obj] == nil {
+				st.sortsParam[fn.Obj] = map[int]bool{}
+			}
+			st.sortsParam[fn.Obj][k] = true
 		}
 		return true
 	})
